@@ -350,6 +350,13 @@ def correspondences(tier, rng):
             b = list(_st.pack(">HHH", 4, (6 + len(body)) & 0xFFFF, 0)) + body
         elif r_ == 3 and len(b) > 16:                                    # a different segment count over the same words
             b[6:8] = list(_st.pack(">H", rng.choice([0, 2, 4, 6, 200, 65534])))
+        # a damaged segment may span tens of thousands of codes; the model's dict is a list (quadratic): keep the expansions small
+        def span4(bb):
+            if len(bb) < 16: return 0
+            sc = int.from_bytes(bytes(bb[6:8]), "big") // 2; w = [int.from_bytes(bytes(bb[14 + 2 * j:16 + 2 * j]), "big") for j in range((len(bb) - 14) // 2)]
+            ends = w[:sc]; starts = w[sc + 1:sc + 1 + sc]
+            return sum(max(0, e_ - s_ + 1) for s_, e_ in zip(starts[:-1] if len(starts) > 1 else [], ends))
+        if span4(b) > 3000: continue
         d4.append(b)
     def impl_c4_decompile(b):
         def go():
